@@ -26,10 +26,10 @@ def strategy(tier):
     depth = 3 if tier == "quick" else 5
     return st.fixed_dictionaries({
         "tree": T.dir_tree(depth, max_files=4, max_dirs=3),
-        "recursive": st.booleans(),
-        "auto": st.booleans(),
+        "recursive": st.sampled_from([True, True, True, False]),
+        "auto": st.sampled_from([True, False]),
         "prefix": st.one_of(st.none(), st.sampled_from(["pfx", "My.Proj", "p q"])),
-        "outloc": st.sampled_from(["abs", "rel", "nested"]),
+        "outloc": st.sampled_from(["nested", "rel", "abs", "nested", "rel"]),
         "order": st.one_of(st.none(), st.lists(st.integers(0, 11), min_size=1, max_size=8)),
     })
 
